@@ -81,6 +81,9 @@ def heap_oracle(case, impl, model):
                 probs.append(f"heap {j}: a reachable slot was put on the free list")
         if len(L) != len(lists) or len(R) != len(records):
             probs.append(f"heap {j}: arena size changed")
+        if len(fl) != len(set(fl)) or len(fr) != len(set(fr)):
+            # two later allocations would be handed the same slot: a collection that is not invisible
+            probs.append(f"heap {j}: a slot is on a free list more than once after the collection ({fl} / {fr})")
     return probs[:3]
 
 
